@@ -8,7 +8,8 @@ DRIVER = "c20"
 PROPS_MODULE = "OxyModel.Props.C20"
 AUDIT = "OxyModel/Audit/C20.lean"
 THEOREMS = ["C20.C20_transparent", "C20.C20_decorate_only_cookies", "C20.C20_decisive_at", "C20.C20_decisive",
-            "C20.C20_status_table", "C20.C20_response_limit", "C20.C20_abort_restores", "C20.C20_abort_state"]
+            "C20.C20_status_table", "C20.C20_response_limit", "C20.C20_abort_restores", "C20.C20_abort_state",
+            "C20.C20_failed_hijack_relayed", "C20.C20_info_implicit_final_counterexample"]
 RACE = False
 JOBS = 12
 BATCH_TIMEOUT = 600
@@ -23,6 +24,8 @@ ASSUMPTIONS = [
     "net/http's own response writing, chunking, Content-Type sniffing of the error bodies and Hijack/Flush of *http.response are stdlib behaviour: exercised by every scenario (depth-0 stacks are the bare handler), not proved",
     "the per-layer decision whether to intervene is an input of the stack model (tripped / maxReq vs body length); that the decision itself follows the limits is C03/C04/C05/C02/C15",
     "a handler leaving by panic(http.ErrAbortHandler): what the client sees of that exchange is not compared (canonicalised as `aborted`), only that the handler ran once and what later requests get",
+    "handlers that send 1xx informational responses also set their final status explicitly: outside this domain the unchanged code is NOT transparent (Buffer drops the body, theorem C20_info_implicit_final_counterexample) and the generator stays inside it",
+    "a Buffer swallows 1xx responses and Flush by design; a front writer without Hijack/Flush (cfg front=) cannot be given these capabilities by the stack: the monitor demands them only where the front offers them",
     "handlers do not write a body with 204/304, do not set Content-Length/Grpc-Status themselves and requests carry no sticky cookie; HEAD requests and buffer retries are not generated",
     "flush=1 means the flushed bytes were read by the client while the handler was still running (negative answer only after 1 s and 500 executed polls)",
     "an HTTP exchange that hits the 25 s client timeout is repeated once as a fresh request (machine-wide stalls during memory exhaustion by unrelated processes were observed); a reproducible hang still fails",
@@ -41,7 +44,7 @@ SKIP_HDR = {"Date", "Content-Length", "Transfer-Encoding", "Connection"}
 # ---------------------------------------------------------------- scenario syntax
 def parse_layer(tok):
     p = tok.split("/")
-    l = {"kind": p[0], "sticky": False, "fb": "", "q": 0, "r": 0}
+    l = {"kind": p[0], "sticky": False, "fb": "", "q": 0, "r": 0, "p": 1000}
     for o in p[1:]:
         if o == "s":
             l["sticky"] = True
@@ -53,6 +56,8 @@ def parse_layer(tok):
             l["q"] = int(o[1:])
         elif o[0] == "r":
             l["r"] = int(o[1:])
+        elif o[0] == "p":
+            l["p"] = int(o[1:])
     return l
 
 
@@ -62,7 +67,8 @@ def parse_cfg(line):
     stack = [] if sv in ("-", "") else [parse_layer(t) for t in sv.split(",")]
     iv = kv.get("intervene", "none")
     iv = None if iv == "none" else int(iv)
-    sc = {"status": None, "hdrs": [], "chunks": [], "flush": 0, "hijack": False}
+    sc = {"status": None, "hdrs": [], "chunks": [], "flush": 0, "hijack": False, "info": [], "early": False,
+          "front": kv.get("front", "real")}
     for part in kv.get("h", "").split(";"):
         k, _, v = part.partition(":")
         if k == "status":
@@ -75,6 +81,10 @@ def parse_cfg(line):
             sc["flush"] = int(v)
         elif k == "hijack":
             sc["hijack"] = v == "1"
+        elif k == "early":
+            sc["early"] = v == "1"
+        elif k == "info" and v:
+            sc["info"] = [int(x) for x in v.split(",")]
     return stack, iv, sc
 
 
@@ -139,6 +149,9 @@ def monitor(ops, outs):
             elif lay["kind"] == "buffer" and lay["q"] > 0 and blen > lay["q"]:
                 I.append(i)
         total = sum(sc["chunks"])
+        front_hijack = sc["front"] in ("real", "noflush")
+        front_flush = sc["front"] in ("real", "nohijack")
+        hij = sc["hijack"] and front_hijack  # the attempt can only succeed where the front offers Hijack; elsewhere the handler answers normally
         if abort and not I:
             bad.append("transparent: no layer has a reason to intervene but the request (aborting handler) was answered without it: %s" % o[:60])
             continue
@@ -156,7 +169,7 @@ def monitor(ops, outs):
             if len(I) == 1 and stack[o_idx]["kind"] == "cbreaker" and stack[o_idx]["fb"] == "r" and not any(k == "Location" for k, _ in hdrs):
                 bad.append("decisive: redirect fallback without Location")
             continue
-        if not sc["hijack"] and any(lay["kind"] == "buffer" and 0 < lay["r"] < total for lay in stack):
+        if not hij and any(lay["kind"] == "buffer" and 0 < lay["r"] < total for lay in stack):
             if invoked > 1:
                 bad.append("transparent: handler invoked %d times" % invoked)
             continue  # response over a buffer maximum: not a non-intervening configuration
@@ -181,20 +194,25 @@ def monitor(ops, outs):
             if len(g) < len(w) or (len(w) and g[len(g) - len(w):] != w):
                 bad.append("transparent: handler header %s=%s not relayed unchanged, client got %s" % (k, w, g))
                 continue
-            if sc["hijack"] and extra:
+            if hij and extra:
                 bad.append("transparent: header %s=%s appeared on a hijacked connection" % (k, extra))
             for v in extra:
                 if not (k == "Set-Cookie" and v in cookies and extra.count(v) == 1):
                     bad.append("transparent: a layer added the undocumented header %s: %s" % (k, v))
         has_buffer = any(lay["kind"] == "buffer" for lay in stack)
-        if kv["hi"] != "1":
+        if front_hijack and kv["hi"] != "1":
             bad.append("capability: the handler's ResponseWriter is not an http.Hijacker")
-        if sc["hijack"] and kv["hijack"] != "1":
+        if hij and kv["hijack"] != "1":
             bad.append("capability: Hijack failed inside the stack %s" % [x["kind"] for x in stack])
-        if not has_buffer and kv["fi"] != "1":
+        if sc["hijack"] and not front_hijack and kv["hijack"] == "1":
+            bad.append("capability: Hijack succeeded although the front writer cannot be hijacked")
+        if front_flush and not has_buffer and kv["fi"] != "1":
             bad.append("capability: the handler's ResponseWriter is not an http.Flusher (no buffer in the stack)")
-        if not sc["hijack"] and 1 <= sc["flush"] <= len(sc["chunks"]) and not has_buffer and kv["flush"] != "1":
-            bad.append("capability: Flush did not reach the client (no buffer in the stack %s)" % [x["kind"] for x in stack])
+        wants_flush = sc["early"] or 1 <= sc["flush"] <= len(sc["chunks"])
+        if not hij and wants_flush and front_flush and not has_buffer and kv["flush"] != "1":
+            bad.append("capability: Flush did not reach the client while the handler was running (no buffer in the stack %s, early=%s)" % ([x["kind"] for x in stack], sc["early"]))
+        if not hij and not has_buffer and kv.get("info", "-") != (",".join(map(str, sc["info"])) or "-"):
+            bad.append("transparent: informational responses %s, client saw %s" % (sc["info"], kv.get("info")))
     return bad
 
 
@@ -202,7 +220,7 @@ def nontrivial(ops, outs):
     for l in ops:
         if l.startswith("cfg"):
             stack, iv, sc = parse_cfg(l)
-            return len(stack) >= 2 and (iv is not None or sc["hijack"] or sc["flush"] > 0 or any(x["q"] for x in stack))
+            return len(stack) >= 2 and (iv is not None or sc["hijack"] or sc["flush"] > 0 or sc["early"] or sc["info"] or any(x["q"] for x in stack))
     return False
 
 
@@ -220,6 +238,14 @@ def describe(ops, outs, hist):
                 hist["script:hijack"] += 1
             if sc["flush"]:
                 hist["script:flush"] += 1
+            if sc["early"]:
+                hist["script:early-flush"] += 1
+            if sc["info"]:
+                hist["script:1xx"] += 1
+            hist["front:" + sc["front"]] += 1
+            for x in stack:
+                if x["kind"] == "ratelimit":
+                    hist["ratelimit-period-ms:%d" % x["p"]] += 1
         elif f[0] == "req":
             hist["op:req"] += 1
             if "abort=1" in f:
@@ -245,6 +271,8 @@ def layer_token(rng, kind, force_q=False):
             t += "/f" + rng.choice(["418", "429", "200", "500", "503"])
         elif r < 0.45:
             t += "/fr"
+    if kind == "ratelimit" and rng.random() < 0.6:
+        t += "/p" + rng.choice(["1", "10", "50", "99", "100", "101", "1500", "2500", "60000", "90000", "3600000"])
     if kind == "buffer":
         if force_q or rng.random() < 0.35:
             t += "/q" + rng.choice(["8", "16", "64"])
@@ -266,15 +294,25 @@ def script(rng, flush=None, hijack=None):
     # net/http itself deletes Content-Type from a 304 (also for the bare handler); every other response sets one so that nothing is sniffed
     hd = [] if status == "304" else ["Content-Type=" + rng.choice(["text/verif", "text/verif", "application/json", "text/html"])]
     hd += rng.sample(EXTRA_HDRS, rng.choice([0, 1, 1, 2, 3]))
+    # the flush point lies within the first 2000 body bytes: beyond net/http's own buffers bytes reach the client without any
+    # Flush, and "delivered while the handler runs" would no longer be attributable to the Flush call
+    ok_points = [k for k in range(1, len(chunks) + 1) if sum(chunks[:k]) <= 2000]
     if flush is None:
-        flush = rng.randint(1, len(chunks)) if chunks and rng.random() < 0.55 else 0
+        flush = rng.choice(ok_points) if ok_points and rng.random() < 0.55 else 0
     elif flush:
-        if not chunks:
-            chunks = [rng.choice(CHUNKS[1:])]
-        flush = rng.randint(1, len(chunks))
+        if not ok_points:
+            chunks = [rng.choice(CHUNKS[1:5])] + chunks
+            ok_points = [1]
+        flush = rng.choice(ok_points)
     if hijack is None:
         hijack = rng.random() < 0.3
-    return "status:%s;hdr:%s;body:%s;flush:%d;hijack:%d" % (status, ",".join(hd), ",".join(map(str, chunks)), flush, 1 if hijack else 0)
+    out = "status:%s;hdr:%s;body:%s;flush:%d;hijack:%d" % (status, ",".join(hd), ",".join(map(str, chunks)), flush, 1 if hijack else 0)
+    # 1xx informational responses only together with an explicit final status (C20_info_implicit_final_counterexample)
+    if status != "none" and rng.random() < 0.18:
+        out += ";info:" + ",".join(rng.choice(["103", "103", "102"]) for _ in range(rng.choice([1, 1, 2])))
+    if rng.random() < 0.25:
+        out += ";early:1"
+    return out
 
 
 def reqs(rng, toks, iv):
@@ -306,7 +344,7 @@ ESCALATED_TIER = "escalated"
 
 
 def gen(rng, tier):
-    n_scen = {"quick": 1500, "thorough": 6000, "search": 600, "escalated": 4000}.get(tier, 1500)
+    n_scen = {"quick": 1200, "thorough": 6000, "search": 600, "escalated": 4000}.get(tier, 1200)
     for _ in range(n_scen):
         depth = rng.choice([0, 1, 1, 2, 2, 3, 3, 3, 4, 4, 5])
         kinds = [rng.choice(KINDS) for _ in range(depth)]
@@ -314,12 +352,16 @@ def gen(rng, tier):
         if depth and rng.random() < 0.55:
             iv = rng.randrange(depth)
         toks = [layer_token(rng, k, force_q=(iv == i)) for i, k in enumerate(kinds)]
-        lines = ["cfg stack=%s intervene=%s h=%s" % (",".join(toks) or "-", "none" if iv is None else iv, script(rng))]
+        front = rng.choice(["nohijack", "noflush", "plain"]) if rng.random() < 0.25 else None
+        lines = ["cfg stack=%s intervene=%s %sh=%s" % (",".join(toks) or "-", "none" if iv is None else iv,
+                                                       "front=%s " % front if front else "", script(rng))]
         lines += reqs(rng, toks, iv)
         yield lines
 
 
-FIXED_FLUSH = "status:201;hdr:Content-Type=text/verif,X-A=1,Set-Cookie=hc=1;body:5,7;flush:1;hijack:0"
+FIXED_FLUSH = "status:201;hdr:Content-Type=text/verif,X-A=1,Set-Cookie=hc=1;body:5,7;flush:1;hijack:0;info:103"
+FIXED_EARLY = "status:none;hdr:Content-Type=text/verif;body:3;flush:0;hijack:0;early:1"
+FIXED_FAILHIJACK = "status:501;hdr:Content-Type=text/verif,X-A=1;body:4;flush:0;hijack:1"
 FIXED_HIJACK = "status:none;hdr:Content-Type=text/verif,X-A=1,X-A=2;body:3,2000;flush:0;hijack:1"
 
 
@@ -331,6 +373,8 @@ def exhaustive(tier):
             toks = [k + ("/s" if k in ("roundrobin", "rebalancer") else "") + ("/q16" if k == "buffer" else "") for k in kinds]
             sv = ",".join(toks) or "-"
             yield ["cfg stack=%s intervene=none h=%s" % (sv, FIXED_FLUSH), "req", "req body=16"]
+            yield ["cfg stack=%s intervene=none h=%s" % (sv, FIXED_EARLY), "req"]
+            yield ["cfg stack=%s intervene=none front=%s h=%s" % (sv, ("nohijack", "plain")[d % 2], FIXED_FAILHIJACK), "req"]
             yield ["cfg stack=%s intervene=none h=%s" % (sv, FIXED_HIJACK), "req body=9 abort=1", "req body=9", "req abort=1", "req abort=1", "req"]
             for i, k in enumerate(kinds):
                 if k == "buffer":
